@@ -32,6 +32,12 @@ pub fn build(property: &str, tier: &str) -> Option<PropRun> {
         "C12" => Some(c12(quick)),
         "C13" => Some(c13(quick)),
         "C20" => Some(c20(quick)),
+        "C16" => Some(crate::c16::build(quick)),
+        "C14" => Some(crate::c14::build(quick)),
+        "C04" => Some(crate::c04::build(quick)),
+        "C19" => Some(crate::c19::build(quick)),
+        "C15" => Some(crate::c15::build(quick)),
+        "C06" => Some(crate::c06::build(quick)),
         "C07" => Some(crate::props_ew::c07(quick)),
         "C08" => Some(crate::props_ew::c08(quick)),
         "C09" => Some(crate::props_ew::c09(quick)),
@@ -92,7 +98,7 @@ fn c01(quick: bool) -> PropRun {
             scs.push(spec("C01.full", &grid[0], s, env, 99, oracles));
         }
     }
-    PropRun { level: "model_checking", scenarios: scs, summary: lw_summary(
+    PropRun { level: "model_checking", scenarios: scs, units: vec![], replay_case: None, summary: lw_summary(
         "deviation-bounded exhaustive exploration of the real HalfConnection pair; a case is one execution (script x configuration x choice vector); distinct = distinct observable outcome (delivery sequence, frame count, final state)",
         json!({"d_all_short_scripts": d_small, "short_script_len": n_small, "d_collision_scripts": d_col, "fates": "deliver/drop/dup/dup-late/delay1/delay3/corrupt", "deltas_ms": DELTAS_STD, "windows": if quick { "4,4096" } else { "2,4,8,4096" }, "wrap": "packet ids start 0, 2^20-2, 2^20-w+1; frame ids 0, 2^32-2, 2^32-w+1"}),
         A_LW) }
@@ -141,7 +147,7 @@ fn c02(quick: bool) -> PropRun {
             scs.push(spec(&format!("C02.blackout.{}", name), cfg, &si, envb, 1, oracles));
         }
     }
-    PropRun { level: "model_checking", scenarios: scs, summary: lw_summary(
+    PropRun { level: "model_checking", scenarios: scs, units: vec![], replay_case: None, summary: lw_summary(
         "fault prefix (deviations in the first dev_rounds rounds) followed by a fair network; safety on every round, bounded liveness at the horizon T_live = 300 s of virtual time (fixed a priori from protocol constants, never calibrated on the implementation)",
         json!({"d": d, "dev_rounds": dev, "T_live_ms": 300_000, "fair_cadence_ms": 20, "blackouts": "one or both directions, 3..3000 rounds, at every round of the prefix"}),
         &[A_LW[0], A_LW[1], A_LW[3], "bounded liveness: a change that slows recovery but stays inside T_live is not detected; a permanent stall is"]) }
@@ -191,7 +197,7 @@ fn c05(quick: bool) -> PropRun {
             scs.push(spec(&format!("C05.{}", name), &c, &si, env, d, oracles));
         }
     }
-    PropRun { level: "model_checking", scenarios: scs, summary: lw_summary(
+    PropRun { level: "model_checking", scenarios: scs, units: vec![], replay_case: None, summary: lw_summary(
         "ideal network (every frame delivered in order after a fixed latency); deviations are timing and application choices only (step spacing, one side skipping a step, extra flush() calls); oracle: global delivery order = submission order minus TimeSensitive packets, exactly once",
         json!({"d": d, "scripts": format!("all scripts of <= {} packets over 2 channels x 4 modes x sizes {:?} + 6 burst scripts", n, sizes), "latency_rounds": [1, 2, 3, 5], "deltas_ms": [20, 0, 1, 150, 2000]}),
         A_LW) }
@@ -222,7 +228,7 @@ fn c12(quick: bool) -> PropRun {
         let small = scripts_upto(2, &[0, 1], &MODES, &[40, 2000, 3000], &[0, 1]);
         for s in small.iter() { let mut env = env_live(6); env.flush_choice = true; scs.push(spec("C12.all", &grid[0], s, env, 2, oracles)); }
     }
-    PropRun { level: "model_checking", scenarios: scs, summary: lw_summary(
+    PropRun { level: "model_checking", scenarios: scs, units: vec![], replay_case: None, summary: lw_summary(
         "transmissions per (packet id, fragment id) read from the wire, acknowledgements from the frames handed to the sender; Unreliable/TimeSensitive at most once, TimeSensitive never first transmitted after the step following send(), Persistent/Reliable never retransmitted after a processed acknowledgement or a packet-window base beyond the packet, and at the horizon every such fragment is acknowledged, moved past or still scheduled",
         json!({"d": d, "fates": "deliver/drop/dup/delay1/delay3 on data and ack frames", "flush_budgets": "2 MB/s, 20 kB/s, 5 kB/s"}),
         A_LW) }
@@ -254,7 +260,7 @@ fn c13(quick: bool) -> PropRun {
             scs.push(spec(&format!("C13.{}", name), &cfg, &si, env, d, oracles));
         }
     }
-    PropRun { level: "model_checking", scenarios: scs, summary: lw_summary(
+    PropRun { level: "model_checking", scenarios: scs, units: vec![], replay_case: None, summary: lw_summary(
         "every pair of emission instants of every execution is checked against bytes <= C*(dt + RTT*) + 1472 (+1 byte per step for rounding), C = the connection's negotiated ceiling, RTT* = the largest estimate reported from the step before the interval to its end",
         json!({"d": d, "ceilings_Bps": [1472, 5000, 100_000, 2_000_000], "backlogs": "0, 1, 20, 100 frames, one 60 kB packet, both directions", "deltas_ms": [20, 0, 1, 1000, 60_000], "extra_flushes_per_step": [0, 1, 3]}),
         A_LW) }
@@ -285,7 +291,7 @@ fn c20(quick: bool) -> PropRun {
         let small = scripts_upto(3, &[0], &MODES, &[0, 40, 2000], &[0, 1]);
         for s in small.iter() { scs.push(spec("C20.all", &grid[0], s, env_live(5), 2, oracles)); }
     }
-    PropRun { level: "model_checking", scenarios: scs, summary: lw_summary(
+    PropRun { level: "model_checking", scenarios: scs, units: vec![], replay_case: None, summary: lw_summary(
         "send_buffer_size() compared on every round with bounds [L,U] derived from the API calls and the wire (L = U unless a TimeSensitive packet that never reaches the wire may already have been discarded); zero and nothing pending at the horizon",
         json!({"d": d}),
         A_LW) }
